@@ -105,6 +105,10 @@ class PassWorld(World):
             for nm, (fn_, f_) in traits.get(tr, {}).items():
                 if nm not in own and (ty, nm) not in self.methods:
                     self.methods[(ty, nm)] = (fn_, f_)
+        # impls written with a module path (`impl TryLift<()> for ast::Expression`): also known by the type's own name
+        for (ty_, m_), v_ in list(self.methods.items()):
+            if "::" in ty_ and (last(ty_), m_) not in self.methods:
+                self.methods[(last(ty_), m_)] = v_
         self.stubs = {}
         self.struct_fields = {}
         for f in files:
@@ -170,6 +174,20 @@ class PassWorld(World):
             return ok and all(self.bind(q, x, env, uses) for q, x in zip(after, items[len(items) - len(after):]))
         if k == "PRest":
             return True
+        if k == "PSlice":
+            items = list(v.items) if isinstance(v, Sink) else (list(v[1]) if isinstance(v, tuple) and v and v[0] == "L" else None)
+            if items is None:
+                raise Unsupported("slice pattern against %r" % (v,))
+            rest = [j for j, x in enumerate(p["elems"]) if x["k"] == "PRest" or (x["k"] == "PIdent" and x.get("sub") is not None and x["sub"]["k"] == "PRest")]
+            if not rest:
+                return len(items) == len(p["elems"]) and all(self.bind(q, x, env, uses) for q, x in zip(p["elems"], items))
+            i = rest[0]
+            before, after = p["elems"][:i], p["elems"][i + 1:]
+            if len(items) < len(before) + len(after):
+                return False
+            if p["elems"][i]["k"] == "PIdent":
+                env[p["elems"][i]["name"]] = ("L", tuple(items[len(before):len(items) - len(after)]))
+            return all(self.bind(q, x, env, uses) for q, x in zip(before, items)) and all(self.bind(q, x, env, uses) for q, x in zip(after, items[len(items) - len(after):]))
         if k == "PLit" and isinstance(v, str):
             return self.lit(p["lit"]) == v
         if k == "PTupleStruct" and isinstance(v, tuple) and v and v[0] == "V":
@@ -188,7 +206,18 @@ class PassWorld(World):
         if base in SET_TYPES:
             return MSet()
         if base in MAP_TYPES:
-            return MMap()
+            m_ = MMap()
+            # the value type, for `entry(k).or_default()`
+            inner = ty[len(base) + 1:-1] if ty.endswith(">") else ""
+            depth, cut = 0, None
+            for i_, ch in enumerate(inner):
+                depth += ch == "<"
+                depth -= ch == ">"
+                if ch == "," and depth == 0:
+                    cut = i_
+                    break
+            m_.value_type = inner[cut + 1:] if cut is not None else None
+            return m_
         if base in VEC_TYPES:
             return Sink()
         if base == "Option":
@@ -203,6 +232,7 @@ class PassWorld(World):
 
     # opaque functions: path prefix -> callable(name, args) -> value   (set by the rule)
     opaque = ()
+    max_rounds = 200  # bound on the iterations of one `while` / `loop` in a world
     lenient_opaque = False  # unknown methods of opaque values give opaque results instead of Unsupported
 
     def result_method(self, recv, m, args, uses):
@@ -270,6 +300,16 @@ class PassWorld(World):
                 return S(p0, self.eval(e["args"][0], env, uses))
             if p0 in ("Box::new", "Rc::new", "Arc::new", "std::boxed::Box::new") and len(e["args"]) == 1:
                 return self.eval(e["args"][0], env, uses)  # a box is its content
+        if k == "Cast":
+            v = self.eval(e["e"], env, uses)
+            ty_ = str(e.get("ty") or "").replace(" ", "")
+            if isinstance(v, int) and not isinstance(v, bool) and ty_ in ("i64", "u64", "usize", "isize", "i128", "u128", "i32", "u32"):
+                if ty_.startswith("u") and v < 0:
+                    raise Unsupported("cast of a negative number to " + ty_)
+                return v
+            if isinstance(v, tuple) and v and v[0] in ("O", "K"):
+                return v
+            raise Unsupported("cast of %r to %s" % (v, ty_))
         if k == "Index":
             b = self.eval(e["base"], env, uses)
             if e["index"]["k"] == "Range":
@@ -290,6 +330,11 @@ class PassWorld(World):
             p = e["path"]
             if p not in env and last(p) in self.free and "::" not in p:
                 return ("F", p)
+            sg0 = p.split("::")
+            if self.lenient_opaque and len(sg0) == 2 and sg0[0][:1].isupper() and sg0[1][:1].islower() and p not in env and (sg0[0], sg0[1]) not in self.methods and sg0[1] in ("from", "into", "new", "to_string", "clone"):
+                return ("PY", lambda *a, p=p: ("K", p, tuple(a)))  # a conversion of a type defined elsewhere, used as a function value
+            if self.lenient_opaque and len(sg0) == 2 and sg0[0][:1].isupper() and sg0[1][:1].isupper() and p not in env and sg0[0] not in self.enums and sg0[0] not in self.structs and self.variant(p, uses + list(self.file_uses)) is None and p not in self.consts:
+                return ("O", p, ())  # a unit variant / associated constant of a type defined elsewhere
         if k == "Field":
             b = self.eval(e["base"], env, uses)
             if isinstance(b, tuple) and b and b[0] == "V":
@@ -297,10 +342,23 @@ class PassWorld(World):
                     return b[3][e["member"]]
                 raise Unsupported("field %s not in the world" % e["member"])
             if isinstance(b, tuple) and b and b[0] == "O":
+                for k_, v_ in (b[2] if len(b) > 2 else ()):
+                    if k_ == e["member"] and not (isinstance(v_, tuple) and v_ and v_[0] == "PY"):
+                        return v_  # a public field of an opaque struct
                 return ("O", "%s.%s" % (b[1], e["member"]))
         if k == "Call" and e["func"]["k"] == "Path":
             p = e["func"]["path"]
             segs_ = p.split("::")
+            if len(segs_) >= 2 and segs_[-2] in SET_TYPES + VEC_TYPES and segs_[-1] in ("from", "from_iter") and len(e["args"]) == 1 and p not in env:
+                a_ = self.eval(e["args"][0], env, uses)
+                items_ = a_.rest() if isinstance(a_, Iter) else (list(a_.items) if isinstance(a_, (MSet, Sink)) else (list(a_[1]) if isinstance(a_, tuple) and a_ and a_[0] == "L" else None))
+                if items_ is None:
+                    raise Unsupported("%s of %r" % (p, a_))
+                if segs_[-2] in SET_TYPES:
+                    return MSet(items_)
+                sk_ = Sink()
+                sk_.items = items_
+                return sk_
             if len(segs_) >= 2 and segs_[-2] in SET_TYPES and segs_[-1] in ("new", "with_capacity", "default") and p not in env:
                 for a in e["args"]:
                     self.eval(a, env, uses)
@@ -310,7 +368,10 @@ class PassWorld(World):
             if len(segs_) >= 2 and segs_[-2] in MAP_TYPES and segs_[-1] in ("new", "with_capacity", "default") and p not in env:
                 for a in e["args"]:
                     self.eval(a, env, uses)
-                return MMap()
+                mp_ = MMap()
+                g_ = e["func"].get("generics") or []
+                mp_.value_type = g_[1].replace(" ", "") if len(g_) == 2 else None
+                return mp_
             if len(segs_) >= 2 and segs_[-2] in VEC_TYPES and segs_[-1] in ("new", "with_capacity", "default") and p not in env:
                 for a in e["args"]:
                     self.eval(a, env, uses)
@@ -327,6 +388,9 @@ class PassWorld(World):
             if "::" not in p and p in self.free and p not in env:
                 args = [self.eval(a, env, uses) for a in e["args"]]
                 return self._free_call(p, args)
+            if "::" not in p and p in self.stubs and p not in env:
+                args = [self.eval(a, env, uses) for a in e["args"]]
+                return self.stubs[p](args)  # a function defined elsewhere, modelled by the rule
             sg_ = p.split("::")
             if self.lenient_opaque and len(sg_) >= 2 and p not in env and (sg_[-2], sg_[-1]) not in self.methods and sg_[-1] not in ("Some", "Ok", "Err", "max", "min") and sg_[-2] not in self.enums and sg_[-1] not in self.structs and sg_[-2][:1].isupper() and sg_[-2] != "Self" and sg_[-2] not in VEC_TYPES and sg_[-2] not in MAP_TYPES:
                 args = [self.eval(a, env, uses) for a in e["args"]]
@@ -337,6 +401,19 @@ class PassWorld(World):
                 if any(isinstance(a, (Sink, MMap)) and n_.get("k") == "Ref" and n_.get("mut") for a, n_ in zip(args, e["args"])):
                     raise Unsupported("unknown function %s takes a collection it may change" % p)
                 return ("K", p, tuple(args))  # a function defined elsewhere: opaque result
+        if k == "MethodCall" and e["method"] == "unwrap_or_default" and not e["args"]:
+            recv = self.eval(e["recv"], env, uses)
+            if isinstance(recv, tuple) and len(recv) > 2 and recv[0] == "S" and recv[1] in ("Some", "Ok"):
+                return recv[2][0]
+            # nothing there: the default of the value type of the map that was asked
+            r_ = strip(e["recv"])
+            while r_["k"] == "MethodCall" and r_["method"] in ("cloned", "copied", "as_ref", "as_deref"):
+                r_ = strip(r_["recv"])
+            if r_["k"] == "MethodCall" and r_["method"] in ("get", "remove", "get_mut"):
+                mp_ = self.eval(r_["recv"], env, uses)
+                if isinstance(mp_, MMap) and getattr(mp_, "value_type", None):
+                    return self.default_of(mp_.value_type)
+            raise Unsupported("unwrap_or_default of a value of unknown type")
         if k == "MethodCall":
             m = e["method"]
             recv = self.eval(e["recv"], env, uses)
@@ -362,9 +439,33 @@ class PassWorld(World):
                     return not recv.items
                 if m == "contains" and len(args) == 1:
                     return any(args[0] is y or args[0] == y for y in recv.items)
+                if m in ("is_subset", "is_superset", "is_disjoint") and len(args) == 1 and isinstance(args[0], MSet):
+                    has = lambda st, x: any(x is y or x == y for y in st.items)  # noqa: E731
+                    if m == "is_subset":
+                        return all(has(args[0], x) for x in recv.items)
+                    if m == "is_superset":
+                        return all(has(recv, x) for x in args[0].items)
+                    return not any(has(args[0], x) for x in recv.items)
+                if m in ("difference", "intersection") and len(args) == 1 and isinstance(args[0], MSet):
+                    inb = lambda x: any(x is y or x == y for y in args[0].items)  # noqa: E731
+                    return Iter([x for x in recv.items if inb(x) == (m == "intersection")])
+                if m == "remove" and len(args) == 1:
+                    for i_, y in enumerate(recv.items):
+                        if args[0] is y or args[0] == y:
+                            del recv.items[i_]
+                            return True
+                    return False
                 if m == "union" and len(args) == 1 and isinstance(args[0], MSet):
                     return Iter(list(MSet(recv.items + args[0].items).items))
                 raise Unsupported("set method " + m)
+            if (isinstance(recv, Iter) or (isinstance(recv, tuple) and recv and recv[0] == "L")) and m == "collect" and not e["args"] and "Result<" in str(e.get("turbofish") or "").replace(" ", ""):
+                items_ = recv.rest() if isinstance(recv, Iter) else list(recv[1])
+                for x in items_:
+                    if isinstance(x, tuple) and len(x) > 2 and x[0] == "S" and x[1] == "Err":
+                        return x  # the first error wins
+                if not all(isinstance(x, tuple) and len(x) > 2 and x[0] == "S" and x[1] == "Ok" for x in items_):
+                    raise Unsupported("collect into Result of non-results")
+                return S("Ok", ("L", tuple(x[2][0] for x in items_)))
             if (isinstance(recv, Iter) or (isinstance(recv, tuple) and recv and recv[0] == "L")) and m == "collect" and not e["args"] and "Vec" in str(e.get("turbofish") or "") and "Option" not in str(e.get("turbofish") or "") and "Result" not in str(e.get("turbofish") or ""):
                 sk_ = Sink()
                 sk_.items = recv.rest() if isinstance(recv, Iter) else list(recv[1])
@@ -411,7 +512,33 @@ class PassWorld(World):
                     return Iter([b_ for _a, b_ in recv.pairs])
                 if m == "clone" and not args:
                     return MMap(recv.pairs)
+                if m == "entry" and len(args) == 1:
+                    return ("ENTRY", recv, args[0])
                 raise Unsupported("map method " + m)
+            if isinstance(recv, tuple) and recv and recv[0] == "ENTRY":
+                mp_, key_ = recv[1], recv[2]
+                p_ = mp_.find(key_)
+                if m == "or_default" and not e["args"]:
+                    if p_ is None:
+                        vt_ = getattr(mp_, "value_type", None)
+                        if not vt_:
+                            raise Unsupported("or_default on a map of unknown value type")
+                        p_ = [key_, self.default_of(vt_)]
+                        mp_.pairs.append(p_)
+                    return p_[1]
+                if m == "or_insert" and len(e["args"]) == 1:
+                    v_ = self.eval(e["args"][0], env, uses)
+                    if p_ is None:
+                        p_ = [key_, v_]
+                        mp_.pairs.append(p_)
+                    return p_[1]
+                if m in ("or_insert_with", "or_insert_with_key") and len(e["args"]) == 1:
+                    if p_ is None:
+                        f_ = self.eval(e["args"][0], env, uses)
+                        p_ = [key_, self.apply(f_, [] if m == "or_insert_with" else [key_], uses)]
+                        mp_.pairs.append(p_)
+                    return p_[1]
+                raise Unsupported("entry method " + m)
             if isinstance(recv, Sink):
                 args = [self.eval(a, env, uses) for a in e["args"]]
                 if m in ("iter", "into_iter", "drain") and (not args or m == "drain"):
@@ -471,6 +598,18 @@ class PassWorld(World):
                         if a != NONE:
                             recv.items.append(a[2][0])
                         return ("T", ())
+                if m == "clone_from" and len(args) == 1:
+                    a = args[0]
+                    src_ = list(a.items) if isinstance(a, Sink) else (list(a[1]) if isinstance(a, tuple) and a and a[0] == "L" else None)
+                    if src_ is not None:
+                        recv.items = src_
+                        return ("T", ())
+                if m == "get" and len(args) == 1 and isinstance(args[0], int):
+                    return S("Some", recv.items[args[0]]) if 0 <= args[0] < len(recv.items) else NONE
+                if m == "contains" and len(args) == 1:
+                    return any(args[0] is y or args[0] == y for y in recv.items)
+                if m in ("first", "last") and not args:
+                    return S("Some", recv.items[0 if m == "first" else -1]) if recv.items else NONE
                 raise Unsupported("method %s on the report sink" % m)
             rm = self.result_method(recv, m, [self.eval(a, env, uses) for a in e["args"]], uses) if (isinstance(recv, tuple) and len(recv) > 2 and recv[0] == "S" and recv[1] in ("Ok", "Err")) else NotImplemented
             if rm is not NotImplemented:
@@ -486,9 +625,16 @@ class PassWorld(World):
                 raise Unsupported("string method " + m)
             if isinstance(recv, Sink) and m in ("into_iter", "iter_mut"):
                 return Iter(list(recv.items))
-            if (isinstance(recv, Iter) or (isinstance(recv, tuple) and recv and recv[0] == "L")) and m in ("filter_map", "flat_map", "chain", "for_each", "count", "enumerate", "rev", "flatten", "find", "position", "try_for_each", "skip", "take", "zip", "sum", "inspect", "find_map", "max", "min"):
+            if (isinstance(recv, Iter) or (isinstance(recv, tuple) and recv and recv[0] == "L")) and m in ("filter_map", "flat_map", "chain", "for_each", "count", "enumerate", "rev", "flatten", "find", "position", "try_for_each", "skip", "take", "zip", "sum", "inspect", "find_map", "max", "min", "unzip"):
                 it = recv if isinstance(recv, Iter) else Iter(recv[1])
                 args = [self.eval(a, env, uses) for a in e["args"]]
+                if m == "unzip" and not args:
+                    prs = it.rest()
+                    if not all(isinstance(x, tuple) and x and x[0] == "T" and len(x[1]) == 2 for x in prs):
+                        raise Unsupported("unzip of non-pairs")
+                    la, lb = Sink(), Sink()
+                    la.items, lb.items = [x[1][0] for x in prs], [x[1][1] for x in prs]
+                    return ("T", (la, lb))
 
                 def some(x):
                     return isinstance(x, tuple) and len(x) > 1 and x[0] == "S" and x[1] == "Some"
@@ -600,6 +746,8 @@ class PassWorld(World):
                 ty = recv[1]
                 if (ty, m) in self.methods:
                     return self.call_fn(self.methods[(ty, m)][0], [recv] + args)
+                if self.lenient_opaque and m == "to_string" and not args:
+                    return ("K", "%s::%s.to_string" % (recv[1], recv[2]), ())  # the Display text of a value: opaque
                 raise Unsupported("method %s on %s::%s" % (m, recv[1], recv[2]))
             if isinstance(recv, tuple) and recv and recv[0] in ("O", "K"):
                 if recv[0] == "O" and len(recv) > 2 and m in dict(recv[2]):
@@ -608,12 +756,19 @@ class PassWorld(World):
                     if isinstance(v_, tuple) and v_ and v_[0] == "PY":
                         return v_[1](*args)
                     return v_
+                if recv[0] == "O" and len(recv) > 2 and "*" in dict(recv[2]):
+                    args = [self.eval(a, env, uses) for a in e["args"]]
+                    return dict(recv[2])["*"][1](m, args)  # catch-all: (method, args) -> value
                 if m in ("clone", "to_owned", "borrow", "as_ref") and not e["args"]:
                     return recv
                 if self.lenient_opaque:
                     args = [self.eval(a, env, uses) for a in e["args"]]
                     return ("K", "%s.%s" % (recv[1], m), tuple(args))
                 raise Unsupported("method %s on opaque %s" % (m, recv[1]))
+            if isinstance(recv, str) and m in ("to_string", "to_owned", "clone", "as_str", "into", "as_ref") and not e["args"]:
+                return recv
+            if isinstance(recv, int) and not isinstance(recv, bool) and m in ("to_string", "clone") and not e["args"]:
+                return str(recv) if m == "to_string" else recv
             # evaluate with the receiver already computed: rebuild a node whose receiver is a bound name
             env2 = dict(env)
             env2["__recv"] = recv
@@ -634,13 +789,15 @@ class PassWorld(World):
                 if e.get("inclusive") or e.get("limits") == "..=":
                     hi += 1
                 return ("L", tuple(range(lo, hi)))
+            if self.lenient_opaque and lo is not None and hi is not None and not (e.get("inclusive") or e.get("limits") == "..="):
+                return ("V", "Range", "Range", {"start": lo, "end": hi})  # a range over opaque positions: a value, not iterated
             raise Unsupported("range with unknown bounds")
         if k in ("While", "Loop"):
             rounds = 0
             while True:
                 rounds += 1
-                if rounds > 200:
-                    raise Unsupported("loop does not end within 200 rounds in this world")
+                if rounds > self.max_rounds:
+                    raise Unsupported("loop does not end within %d rounds in this world" % self.max_rounds)
                 if k == "While":
                     c = e["cond"]
                     if c["k"] == "Let":
@@ -672,6 +829,8 @@ class PassWorld(World):
             itv = self.eval(e["iter"], env, uses)
             if isinstance(itv, (Sink, MSet_types())):
                 itv = Iter(list(itv.items))
+            if isinstance(itv, MMap):
+                itv = Iter([("T", (a_, b_)) for a_, b_ in itv.pairs])
             env["__it"] = itv
             try:
                 return super().eval(dict(e, iter={"k": "Path", "path": "__it", "line": e.get("line", 0)}), env, uses)
@@ -697,12 +856,41 @@ class PassWorld(World):
             l = e["l"]
             while l["k"] == "Paren" or (l["k"] == "Unary" and l["op"] == "*"):
                 l = l["e"]
+            r_ = strip(e["r"])
+            if l["k"] == "Path" and isinstance(env.get(l["path"]), (MSet, Sink)) and r_["k"] == "MethodCall" and r_["method"] == "collect" and not r_["args"] and not r_.get("turbofish"):
+                # `x = it.collect()`: the collection kind is that of the variable assigned
+                it_ = self.eval(r_["recv"], env, uses)
+                items_ = it_.rest() if isinstance(it_, Iter) else (list(it_[1]) if isinstance(it_, tuple) and it_ and it_[0] == "L" else None)
+                if items_ is None:
+                    raise Unsupported("collect of %r" % (it_,))
+                if isinstance(env[l["path"]], MSet):
+                    val = MSet(items_)
+                else:
+                    val = Sink()
+                    val.items = items_
+                env[l["path"]] = val
+                if ("&" + l["path"]) in env:
+                    cell, key = env["&" + l["path"]]
+                    cell[key] = val
+                return ("T", ())
             if l["k"] == "Path" and l["path"] in env and ("&" + l["path"]) in env:
                 val = self.eval(e["r"], env, uses)
                 env[l["path"]] = val
                 cell, key = env["&" + l["path"]]
                 cell[key] = val  # the binding came from a field of a node matched by reference: write through
                 return ("T", ())
+            if l["k"] == "Field":
+                base = self.eval(l["base"], env, uses)
+                val = self.eval(e["r"], env, uses)
+                if isinstance(base, tuple) and len(base) > 3 and base[0] == "V" and isinstance(base[3], dict):
+                    base[3][l["member"]] = val  # a field of a struct value: assigned in place
+                    return ("T", ())
+                if isinstance(base, tuple) and len(base) > 2 and base[0] == "O":
+                    for k_, v_ in base[2]:
+                        if k_ == "set-field" and isinstance(v_, tuple) and v_[0] == "PY":
+                            v_[1](l["member"], val)  # an opaque struct that records assignments to its fields
+                            return ("T", ())
+                raise Unsupported("assignment to field %s of %r" % (l["member"], base if not isinstance(base, tuple) else base[:2]))
         if k in ("Binary", "AssignOp") and e.get("op") in ("|=", "&=", "+=", "-=", "^="):
             l = e["l"]
             while l["k"] == "Paren" or (l["k"] == "Unary" and l["op"] == "*"):
@@ -722,6 +910,8 @@ class PassWorld(World):
             a, b = self.eval(e["l"], env, uses), self.eval(e["r"], env, uses)
             if isinstance(a, int) and isinstance(b, int) and not isinstance(a, bool) and not isinstance(b, bool):
                 return {"+": a + b, "-": a - b, "*": a * b}[e["op"]]
+            if e["op"] == "+" and isinstance(a, str) and isinstance(b, str):
+                return a + b
             if self.lenient_opaque:
                 return ("K", e["op"], (a, b))  # string concatenation / arithmetic on opaque values
             raise Unsupported("binary %s on %r" % (e["op"], a))
